@@ -73,6 +73,7 @@ AtPointN(s, p) ==
       [] p = "server.resetBeforeClear" -> Cardinality({x \in DOMAIN s.rs : s.rs[x].pc = "r4"})
       [] p = "server.beforeReserve"    -> Cardinality({k \in DOMAIN s.iv : s.iv[k].r = "res"})
       [] p = "server.beforeFastInvoke" -> Cardinality({k \in DOMAIN s.iv : s.iv[k].f = "fast"})
+      [] p = "server.initWaitFailed"   -> Cardinality({k \in DOMAIN s.iv : s.iv[k].f \in {"aerr", "aerrR"}})
       [] p = "server.resetBeforeRelease" -> IF s.rdone > 0 THEN 1 ELSE 0
       [] p = "invoke.beforeSetRenderer" -> IF s.pcV.pc = "v1" THEN 1 ELSE 0
       [] p = "core.newInternalAgent"   -> Cardinality({c \in DOMAIN s.calls : s.calls[c].api = "register" /\ s.calls[c].st = "issued"
@@ -246,7 +247,8 @@ InitEndDo(s) ==
         s3 == Emit(s2, TelEv("InitReport", s.pcI.ctx, "", "", 0))
     IN IF s.pcI.ctx = "init"
        THEN \* HandleInit: message to awaitInitCompletion (acknowledged at once), mutex released
-            [s3 EXCEPT !.hm = "free", !.srv.initOut = IF s.pcI.err = "" THEN "ok" ELSE "fail",
+            [s3 EXCEPT !.hm = "free",
+                       !.srv.initOut = IF s.pcI.err = "" THEN "ok" ELSE IF s.pcI.err = "reset" THEN "failreset" ELSE "fail",
                        !.pcI = [pc |-> "off", ctx |-> "init", err |-> s.pcI.err]]
        ELSE [s3 EXCEPT !.pcI = [pc |-> "off", ctx |-> "invoke", err |-> s.pcI.err],
                        !.pcV.pc = IF s.pcI.err = "" THEN "v1" ELSE "fail0", !.pcV.err = s.pcI.err]
@@ -364,11 +366,21 @@ RelReserveDo(s, k) ==
 
 \* FastInvoke goroutine: awaitInitialized blocks until init finished; the first reader consumes a
 \* failure, caches an (empty) init error response unless the runtime supplied one, and shuts down
-FioAwaitInitEn(s, k) == s.iv[k].f = "ainit" /\ s.srv.initOut \in {"ok", "fail", "closed"}
+FioAwaitInitEn(s, k) == s.iv[k].f = "ainit" /\ s.srv.initOut \in {"ok", "fail", "failreset", "closed"}
 FioAwaitInitDo(s, k) ==
-    IF s.srv.initOut = "fail"
-    THEN [s EXCEPT !.srv.initOut = "closed", !.srv.cached = IF @ = NoCached THEN NoBody ELSE @, !.iv[k].f = "shut"]
-    ELSE [s EXCEPT !.srv.initOut = "closed", !.iv[k].f = "fast"]
+    [s EXCEPT !.srv.initOut = "closed",
+              !.iv[k].f = IF s.srv.initOut = "fail" THEN "aerr" ELSE IF s.srv.initOut = "failreset" THEN "aerrR" ELSE "fast"]
+
+\* the init wait ended with a failure (pause point server.initWaitFailed): cache an (empty) init error response
+\* unless the runtime supplied one.  If init was interrupted by a reset, i.e. by this invocation's own timeout, the
+\* repaired code (F-C05-2) stops here; as found ("fio-continues-after-reset") it went on to shut down and to
+\* FastInvoke like after a failed init, possibly long after the reset and into the environment of a later invocation
+FioInitFailedEn(s, k) == s.iv[k].f \in {"aerr", "aerrR"} /\ Free(s, "server.initWaitFailed")
+FioInitFailedDo(s, k) ==
+    LET s1 == [s EXCEPT !.srv.cached = IF @ = NoCached THEN NoBody ELSE @] IN
+    IF s.iv[k].f = "aerrR" /\ "fio-continues-after-reset" \notin AsFound
+    THEN [s1 EXCEPT !.iv[k].f = "off"]
+    ELSE [s1 EXCEPT !.iv[k].f = "shut"]
 
 \* Server.Shutdown -> HandleShutdown under the handler mutex
 FioShutdownEn(s, k) == s.iv[k].f = "shut" /\ s.hm = "free" /\ s.pcS.pc = "off"
@@ -672,7 +684,8 @@ WatchCancelDo(s) == WNext(IF "watch-close-first" \in AsFound THEN WCancel(s) ELS
 NewCall(who, api) ==
     [who |-> who, api |-> api, st |-> "issued", det |-> FALSE, res |-> NoRes,
      id |-> 0, body |-> NoBody, big |-> FALSE, et |-> "", name |-> "", events |-> {}, idc |-> "ok",
-     agen |-> 0, which |-> "", feat |-> FALSE]
+     agen |-> 0, which |-> "", feat |-> FALSE,
+     tdone |-> 0]        \* trace validation: time stamp of the last recorded event when the answer was computed
 
 Answer(s, c, r) == [s EXCEPT !.calls[c].st = "done", !.calls[c].res = r]
 
@@ -925,7 +938,7 @@ Urgent(s) ==
     \/ InvokeLockEn(s) \/ InvokeInitFailedEn(s) \/ DispatchEn(s) \/ AwaitResponseEn(s)
     \/ AwaitRuntimeBackEn(s) \/ AwaitAgentsBackEn(s) \/ InvokeReturnEn(s)
     \/ \E k \in DOMAIN s.iv :
-         \/ MainBeginEn(s, k) \/ RelReserveEn(s, k) \/ FioAwaitInitEn(s, k) \/ FioShutdownEn(s, k)
+         \/ MainBeginEn(s, k) \/ RelReserveEn(s, k) \/ FioAwaitInitEn(s, k) \/ FioInitFailedEn(s, k) \/ FioShutdownEn(s, k)
          \/ FioShutdownDoneEn(s, k) \/ FioFastInvokeEn(s, k) \/ FiiStartEn(s, k) \/ FiiDefaultErrorEn(s, k)
          \/ FiiSendDoneEn(s, k) \/ RelAwaitEn(s, k) \/ RelAfterResetEn(s, k) \/ MainGotResultEn(s, k)
          \/ MainAfterResetEn(s, k) \/ MainAfterTimeoutEn(s, k)
